@@ -100,6 +100,19 @@ def register(lib):
                 last = ops_binop('+', start, ops_binop('*', ops_binop('-', a.shape[0], 1), step))
                 up = ops_cmp('>=', step, 0)
                 return Ite(up, start, last) if is_min else Ite(up, last, start)
+            if isinstance(a, SArray) and a.ndim == 1 and axis is None and a.dtype not in NP.FLOAT_DTYPES:
+                # general integer array: the extreme value is attained at some index and bounds every element (AX-NP-MINMAX)
+                c = cur()
+                n = a.shape[0]
+                k = c.fresh_int('argext')
+                c.assume_raw(z3.And(k >= 0, k < zint(n)))
+                m = a.fn((mk_int(k),))
+                # ... instantiated at the first and the last element only (a quantified fact in the path condition makes every later
+                # query slow; for the monotone axes of this code base the two ends decide)
+                for jj in (0, ops_binop('-', n, 1)):
+                    elem = zint(a.fn((jj,)))
+                    c.assume_raw((zint(m) <= elem) if is_min else (zint(m) >= elem))
+                return m
             raise Unsupported('np.min/np.max of a general array')
         return f
     E['numpy.min'] = np_minmax(True)
